@@ -92,9 +92,14 @@ class LogIntf:
 
     def __init__(self):
         self.written = []
+        self.write_padding = 0
+        self.dropped = 0
 
     def write(self, data):
         self.written.append(data)
+
+    def drop_all(self):
+        self.dropped += 1
 
 
 def comm_view(comm):
@@ -132,3 +137,9 @@ def comm_run(comm, ops):
             views.append(comm.ch_div_get(op[1]))
         views.append(comm_view(comm))
     return views
+
+
+def devinfo_run(comm):
+    """the description phase of the handshake on a handler whose queues and link are the stubs above"""
+    dev = comm._devinfo_get()
+    return [dev, comm._intf.written, comm._intf.write_padding, comm._intf.dropped, comm._q.items, comm._q_stream.items]
